@@ -78,7 +78,7 @@ def run_cfg(ctx, fx):
     # R14.3 the termination future completes only once the actor has terminated: the announcement follows the completed
     # stopped() hook (otherwise every handle reports `stopped` while the actor is still winding down)
     from props.c03 import run_loops
-    run_loops(ctx, fx, "R14.3", {"L6", "L11"})
+    run_loops(ctx, fx, "R14.3", {"L6"})
 
 
 def check_queries(ctx, fx, RULE, suffix):
